@@ -9,6 +9,8 @@ from ..vrules import accept_language, consistent, describe_valuation, semantic, 
 
 
 def run(ctx, report):
+    from .premises import accessor_entries, stateless_premise
+    stateless_premise(ctx, report, 'R04-P1-stateless', ['bic-validate'], extra=None, stop=(), without_national=True, outside=("schwifty.iban", "schwifty.bban"))
     # premise of the symbolic model below (it starts from the cleaned text): the object carries clean(raw), clean removes exactly the
     # whitespace and upper-cases.  A finding here means the statement's "after removing whitespace and upper-casing" is already broken.
     from .c10 import normalisation_rules
